@@ -7,7 +7,7 @@ def prop(pid, **kw):
 prop("C01",
      level="exploration",
      tests=[dict(name="TestC01", quick=1500, thorough=12000)],
-     rule="rapid-generated KV histories (1-40 steps: write transactions of 1-5 Put/PutWithTimestamp/Delete over 2-3 buckets and a 2-7 key universe, reopen steps; both RAM index modes x RWMode x loading mode x sync x segment size 120..8192) checked after every step against an ordered-map-with-TTL model by a systematic read battery (Get of every key, GetAll, PrefixScan of every key prefix, RangeScan, drawn RangeScan/PrefixSearchScan). A case is non-trivial when at least one segment rotation happened and the history deleted a previously written key or left an expired key next to a live one in the same bucket; distinct = distinct case JSON (hashed).",
+     rule="rapid-generated KV histories (1-40 steps: write transactions of 1-5 Put/PutWithTimestamp/Delete over 2-3 buckets and a drawn key universe (70% 2-7 keys; 25% 'wide' 8-30 keys and 5% 'bulk' 40-90 keys in one bucket, so that the order-8 B+ trees have several leaves and levels and range bounds fall between leaves; transactions of up to 8/20 calls there), reopen steps; both RAM index modes x RWMode x loading mode x sync x segment size 120..8192) checked after every step against an ordered-map-with-TTL model by a systematic read battery (Get of every key, GetAll, PrefixScan of every key prefix, RangeScan, drawn RangeScan/PrefixSearchScan). A case is non-trivial when at least one segment rotation happened and the history deleted a previously written key or left an expired key next to a live one in the same bucket; distinct = distinct case JSON (hashed).",
      assumptions=["expiry instants are at least 10^6 s away from the wall clock (valid until 2033)",
                   "the reference model (model_test.go) is correct"])
 
@@ -41,20 +41,20 @@ prop("C07",
 prop("C02",
      level="exploration",
      tests=[dict(name="TestC02", quick=400, thorough=4000)],
-     rule="rapid-generated single-bucket KV histories in HintBPTSparseIdxMode (1-25 steps; write transactions of 1-4 Put/PutWithTimestamp/Delete incl. exact-fill records; reopen 20% of steps; segment sizes 120/200/333 so most keys live in sealed segments; FileIO/MMap x loading mode x sync), checked after every step against the ordered-map-with-TTL model: Get of every key, GetAll, PrefixScan(p,0,ScanNoLimit) of every key prefix, RangeScan over drawn straddling bounds, including reads before the first write. Non-trivial: >=1 rotation and a deleted/expired key next to live keys.",
+     rule="rapid-generated single-bucket KV histories in HintBPTSparseIdxMode (1-25 steps; write transactions of 1-4 (wide key universes of 8-30 keys, 25% of cases: 1-8) Put/PutWithTimestamp/Delete incl. exact-fill records; reopen 20% of steps; segment sizes 120/200/333 so most keys live in sealed segments; FileIO/MMap x loading mode x sync), checked after every step against the ordered-map-with-TTL model: Get of every key, GetAll, PrefixScan(p,0,ScanNoLimit) of every key prefix, RangeScan over drawn straddling bounds, including reads before the first write. Non-trivial: >=1 rotation and a deleted/expired key next to live keys.",
      assumptions=["single bucket, so bucket+key concatenations are unambiguous (the ambiguous case is C04)"])
 
 prop("C04",
      level="exploration",
      tests=[dict(name="TestC04", quick=1500, thorough=15000)],
-     rule="rapid-generated histories over 2-3 buckets drawn from adversarial names {b, bb, b|, \"\", ab, a} (prefixes of each other, empty), KV in all three index modes, lists/sets/sorted sets in KeyVal mode, one call per transaction, reopen steps. Oracle A (metamorphic): after every write transaction the full observation of every (structure,bucket) it does not name is unchanged; oracle B: the reference model with per-bucket maps. Non-trivial: >=2 buckets where one name is a prefix of another.",
+     rule="rapid-generated histories over 2-3 buckets drawn from adversarial names {b, bb, b|, \"\", ab, a} (prefixes of each other, empty), KV in all three index modes, lists/sets/sorted sets in KeyVal mode, one call per transaction for lists/sets/sorted sets, and a third of the steps one transaction of 2-5 key/value writes spread over the buckets (so one transaction writes pairs whose bucket+key concatenations coincide), reopen steps. Oracle A (metamorphic): after every write transaction the full observation of every (structure,bucket) it does not name is unchanged; oracle B: the reference model with per-bucket maps. Non-trivial: >=2 buckets where one name is a prefix of another.",
      assumptions=["known finding c04-sparse-bucket-key-concatenation: sparse-mode histories whose bucket names are prefix-related run in KeyOnly mode instead (counted under excluded)"],
      technique="metamorphic + model-based property testing (rapid)")
 
 prop("C08",
      level="exploration",
      tests=[dict(name="TestC08", quick=1200, thorough=15000)],
-     rule="rapid-generated histories mixing KV (all index modes) and list/set/sorted-set calls (KeyVal mode) in transactions of 1-4 calls (reads and writes, so calls that are valid when made but no-ops at commit occur: second pop of a one-element list, LSet/LTrim/LRem after a pop, SRem of a missing key), exact-fill records, Close/Open at drawn points and at the end. Oracle (metamorphic, model-free): the full observation of every bucket and structure just before Close equals the one just after Open. Non-trivial: a reopen preceded by a committed transaction that touches >=2 structures, contains SMove/SPop, or mutates the same list twice.",
+     rule="rapid-generated histories mixing KV (all index modes) and list/set/sorted-set calls (KeyVal mode) in transactions of 1-4 calls (reads and writes, so calls that are valid when made but no-ops at commit occur: second pop of a one-element list, LSet/LTrim/LRem after a pop, SRem of a missing key), exact-fill records, Close/Open at drawn points and at the end. Also generated: two-step patterns on a fresh list (push n; then one transaction that pops p elements and calls LSet/LTrim/LRem/pop with arguments valid when called but referring to elements that are gone when applied). Oracle (metamorphic, model-free, STRICT: error, empty and zero results are distinct; includes SHasKey and the expiry instant of every live pair): the full observation of every bucket and structure just before Close equals the one just after Open. Non-trivial: a reopen preceded by a committed transaction that touches >=2 structures, contains SMove/SPop, or mutates the same list twice.",
      assumptions=["histories in which a call panics are skipped (C20's domain) and counted"],
      technique="metamorphic property testing (rapid)")
 
@@ -76,14 +76,14 @@ CRASH_ASSUMPTIONS = [
 prop("C09",
      level="fault_enumeration", engine="E1+E3",
      tests=[dict(name="TestC09", quick=250, thorough=2500)],
-     rule="rapid-generated histories (KV in all index modes, lists/sets/sorted sets in KeyVal mode, reads inside transactions so commit-time no-ops occur, reads of a never-written bucket through every read API, exact-fill records, Merge calls, reopen steps, every RWMode/StartFileLoadingMode/sync/segment size 120..1024). Oracle: (i) Open with the same options succeeds after the clean Close; (ii) for RAM index modes every crash image of the recorded file-mutation trace (every event position x torn prefixes of every write at each record-field boundary) is materialised and Open must succeed on it and a full read must not panic. Non-trivial: a workload with more than 3 distinct crash images; inner_enumerations counts the images opened.",
+     rule="rapid-generated histories (KV in all index modes, lists/sets/sorted sets in KeyVal mode, reads inside transactions so commit-time no-ops occur, reads of a never-written bucket through every read API, exact-fill records, Merge calls, reopen steps, every RWMode/StartFileLoadingMode/sync/segment size 120..1024). Oracle: (i) Open with the same options succeeds after the clean Close; (ii) for RAM index modes every crash image of the recorded file-mutation trace (every event position x torn prefixes of every write at each record-field boundary) is materialised and Open must succeed on it and a full read must not panic; every 3rd torn image and every 4th other image is then CONTINUED: one more put (1 byte / 60% of a segment / a whole segment, so the log rotates past whatever the crash left at the tail), Close, Open again - which must succeed and show the recovered contents plus the new pair. Non-trivial: a workload with more than 3 distinct crash images; inner_enumerations counts the images opened.",
      assumptions=CRASH_ASSUMPTIONS,
      technique="record-and-replay crash-point enumeration over rapid-generated workloads")
 
 prop("C10",
      level="fault_enumeration", engine="E3",
      tests=[dict(name="TestC10", quick=400, thorough=4000)],
-     rule="rapid-generated workloads of 2-10 steps (write transactions of 1-5 calls over KV in RAM index modes and list/set/sorted-set calls in KeyVal mode, explicit rollbacks, commits that fail because of an oversized entry at a drawn position, reopen steps; FileIO/MMap x sync x segment size). The file-mutation trace is recorded with commit markers and the observation O_i after each returned commit; every crash image (every event position x torn prefixes at every record-field boundary, deduplicated by content) is opened and its full observation must equal O_c (c = commits returned before the crash point) or O_c+1 when a transaction that later committed was in flight. Non-trivial: a crash point strictly inside the Commit of a multi-record transaction or a torn prefix ending inside the 42-byte header.",
+     rule="rapid-generated workloads of 2-10 steps (write transactions of 1-5 calls over KV in RAM index modes and list/set/sorted-set calls in KeyVal mode, explicit rollbacks, commits that fail because of an oversized entry (a value of SegmentSize+1 bytes, or an entry that is exactly 1-3 bytes too large) at a drawn position, reopen steps; FileIO/MMap x sync x segment size). The file-mutation trace is recorded with commit markers and the observation O_i after each returned commit; every crash image (every event position x torn prefixes at every record-field boundary, deduplicated by content) is opened and its full observation must equal O_c (c = commits returned before the crash point) or O_c+1 when a transaction that later committed was in flight; a third of the torn images and a quarter of the others are continued after recovery (one more put of 1 byte / 60% / 100% of a segment, Close, Open: contents unchanged, new pair present). Oversized entries are Seg+1-byte values or entries exactly 1-2 bytes too large. Non-trivial: a crash point strictly inside the Commit of a multi-record transaction or a torn prefix ending inside the 42-byte header.",
      assumptions=CRASH_ASSUMPTIONS,
      technique="record-and-replay crash-point enumeration with a recorded-observation oracle")
 
@@ -97,7 +97,7 @@ prop("C16",
 prop("C15",
      level="exploration",
      tests=[dict(name="TestC15", quick=800, thorough=8000)],
-     rule="rapid-generated histories (KV with TTL/deletes/overwrites, sets, sorted sets, rollbacks; transactions of 1-4 calls; both RAM index modes; segment sizes 120-333) with Merge at drawn points (18% of steps, so twice in a row and failing '<2 files' merges occur), more writes afterwards and reopen steps incl. a final one. Oracle (differential twin): database A runs the history, database B the same history without the Merge calls; per-call results and the full observation must be identical after every step. Non-trivial: >=1 successful Merge over >=2 segments in a history that deleted, overwrote, expired or rolled back something.",
+     rule="rapid-generated histories (KV with TTL/deletes/overwrites, sets, sorted sets, rollbacks, and commits that fail with an injected write error at record 0-3 (both twins get the same fault; the records written before it stay on disk, uncommitted); transactions of 1-4 (wide key universes: 1-8) calls; both RAM index modes; segment sizes 120-333) with Merge at drawn points (18% of steps, so twice in a row and failing '<2 files' merges occur), more writes afterwards and reopen steps incl. a final one. Oracle (differential twin): database A runs the history, database B the same history without the Merge calls; per-call results and the full observation (incl. the expiry instant of every live pair) must be identical after every step. Non-trivial: >=1 successful Merge over >=2 segments in a history that deleted, overwrote, expired or rolled back something.",
      assumptions=["SPop is not generated (non-deterministic by specification)",
                   "known finding c15-merge-list-duplication: list calls are dropped from the histories (counted under excluded)"],
      technique="differential twin-database property testing (rapid)")
@@ -105,15 +105,15 @@ prop("C15",
 prop("C11",
      level="fault_enumeration", engine="E3",
      tests=[dict(name="TestC11", quick=500, thorough=5000)],
-     rule="as C10 with SyncEnable=true, but every crash point is expanded into power-loss images: each file reverts to its content at its last sync event (absent if never synced) and the truncations, writes and removals since then are volatile - every subset of them is applied when there are <=3 (otherwise none/all/each single one kept or dropped/every prefix), each also with the last kept write torn in half; the image is opened and must show O_c or O_c+1. Non-trivial: workload with at least one position that has volatile operations and more than 3 distinct images.",
+     rule="as C10 with SyncEnable=true and with Merge calls (10% of steps, RAM index modes; most fail with 'at least 2 files', some rewrite segments), but every crash point is expanded into power-loss images: each file reverts to its content at its last sync event (absent if never synced) and the truncations, writes and removals since then are volatile - every subset of them is applied when there are <=3 (otherwise none/all/each single one kept or dropped/every prefix), each also with the last kept write torn in half; the image is opened and must show O_c or O_c+1. Non-trivial: workload with at least one position that has volatile operations and more than 3 distinct images.",
      assumptions=CRASH_ASSUMPTIONS + ["power-loss model: a sync of a file makes its whole content, its length and its directory entry durable; directories are durable when created",
-                                      "unsynced removals are never considered durable"],
+                                      "removals reach the disk in the order they were issued (journalled directory updates): the undone removals are a suffix"],
      technique="record-and-replay power-loss image enumeration with a recorded-observation oracle")
 
 prop("C12",
      level="fault_enumeration", engine="E1+E3",
      tests=[dict(name="TestC12", quick=400, thorough=4000)],
-     rule="rapid-generated mixed histories (<=8 steps, KV in all index modes, structures in KeyVal mode) with one 'bad' transaction of 1-4 state-changing calls inserted at a drawn position, of a drawn kind: function returns an error after k calls (db.Update), explicit Rollback, an oversized entry at a drawn position, an injected write error at EVERY write event of its Commit in turn (each with 0, 7 and 43 bytes written before the error), an injected sync error at every sync event in turn, a read-only transaction calling every mutating API, or calls of every mutating API on the transaction after Commit/Rollback. The bad transaction runs on the main database only; a twin runs the history without it; per-call results and the full observation of main and twin must agree after every step, in the process and after reopen; mutating calls in read-only/finished transactions must return errors; after a sync error the state must equal the twin without the transaction or a second twin that committed it. Non-trivial: the bad transaction contains at least one call that would change the observation (and, for fault kinds, at least one fault plan fired).",
+     rule="rapid-generated mixed histories (<=8 steps, KV in all index modes, structures in KeyVal mode) with one 'bad' transaction of 1-4 state-changing calls inserted at a drawn position, of a drawn kind: function returns an error after k calls (db.Update), explicit Rollback, an oversized entry at a drawn position, an injected write error at EVERY write event of its Commit in turn (each with 0, 7 and 43 bytes written before the error), an injected sync error at every sync event in turn, a read-only transaction calling every mutating API, or calls of every mutating API on the transaction after Commit/Rollback. The bad transaction prefers the keys the history uses and may contain SPop (except for sync faults); after a failed db.Update/db.View the database lock is probed (a write transaction must be able to begin: otherwise DEADLOCK). The bad transaction runs on the main database only; a twin runs the history without it; per-call results and the full observation of main and twin must agree after every step, in the process and after reopen; mutating calls in read-only/finished transactions must return errors; after a sync error the state must equal the twin without the transaction or a second twin that committed it. Non-trivial: the bad transaction contains at least one call that would change the observation (and, for fault kinds, at least one fault plan fired).",
      assumptions=["a failed write leaves the record physically incomplete (if the omitted suffix is all zero bytes the torn prefix is shortened, because the zero-filled segment would already hold the complete record)",
                   "known finding sparse-index-files-not-crash-consistent: I/O-fault cases run in KeyOnly instead of sparse mode (counted under excluded)"],
      technique="twin-database differential testing with exhaustive fault-point enumeration per generated commit")
@@ -128,7 +128,7 @@ prop("C13",
 prop("C03",
      level="exploration",
      tests=[dict(name="TestC03", quick=700, thorough=8000)],
-     rule="rapid-generated KV histories (puts, deletes, expired and live TTL puts over 3-8 keys on the alphabet {a,b,c}, reopen steps, all three index modes); then for every prefix of every written key ALL pages are enumerated: PrefixScan(prefix, offset, limit) for offset 0..n+1 and limit in {ScanNoLimit} U 1..n+1 (n = keys ever written under the prefix) and PrefixSearchScan(prefix, regexp, 0, limit) for every such limit; each page must equal live_prefixed[offset:offset+limit] of the model ('not found' only when that slice is empty). Non-trivial: under some prefix a deleted or expired key precedes a live key; inner_enumerations counts the pages checked.",
+     rule="rapid-generated KV histories (puts, deletes, expired and live TTL puts over 3-8 keys (10% of cases 9-18 keys, so pages cross B+ tree leaves) on the alphabet {a,b,c}, reopen steps, all three index modes); then for every prefix of every written key ALL pages are enumerated: PrefixScan(prefix, offset, limit) for offset 0..n+1 and limit in {ScanNoLimit} U 1..n+1 (n = keys ever written under the prefix) and PrefixSearchScan(prefix, regexp, 0, limit) for every such limit; each page must equal live_prefixed[offset:offset+limit] of the model ('not found' only when that slice is empty). Non-trivial: under some prefix a deleted or expired key precedes a live key; inner_enumerations counts the pages checked.",
      assumptions=["limit 0 and limits below -1 are unspecified and not generated"],
      technique="model-based property testing (rapid) with exhaustive page enumeration per generated history")
 
@@ -148,7 +148,7 @@ CONC_ASSUMPTIONS = [
 prop("C14",
      level="exploration", engine="E4", race=True,
      tests=[dict(name="TestC14", quick=600, thorough=4000)],
-     rule="rapid-generated concurrent programs: 2-16 goroutines (at least one writer and one reader) x 1-6 transactions each on 1-2 databases open in the same process, all three index modes x RWMode x loading mode x sync x segment size 400/2000/8192, db.Update/db.View and manual Begin/Commit styles, a drawn yield plan (runtime.Gosched at every n-th file-mutation hook call and between the two passes of a reader). Version-stamped workload: a writer reads key ver=v, writes ver=v+1 and 1-3 drawn keys stamped v+1 (plus list/set/sorted-set appends in KeyVal mode); a reader reads ver, the keys, RangeScan, PrefixScan (and the list) twice. Oracle: committed writers carry exactly the versions 1..W, consistent with real time; every reader observes exactly the state after one version v inside its real-time window and both passes agree; the final state equals the serial replay; the binary is built with -race and every race report with a nutsdb frame is a violation; deadlock watchdog. Non-trivial: >=2 pairs of transactions on the same database overlapped in real time.",
+     rule="rapid-generated concurrent programs: 2-16 goroutines (at least one writer and one reader) x 1-6 transactions each on 1-2 databases open in the same process, all three index modes x RWMode x loading mode x sync x segment size 400/2000/8192, db.Update/db.View and manual Begin/Commit styles, a drawn yield plan (runtime.Gosched at every n-th file-mutation hook call and between the two passes of a reader). Version-stamped workload: a writer reads key ver=v, writes ver=v+1 and 1-3 drawn keys stamped v+1 (plus list/set/sorted-set appends in KeyVal mode); every writer also re-scores one sorted-set member to its version; 1 in 7 write transactions must fail (the function returns an error, or an entry larger than a segment makes Commit fail) and must leave no trace; a reader reads ver, the keys, RangeScan, PrefixScan, PrefixSearchScan with its own regular expression, the list, the set and the re-scored member, twice. 1 in 8 RAM-mode programs run on a database that was merged once before the goroutines start. Oracle: committed writers carry exactly the versions 1..W, consistent with real time; every reader observes exactly the state after one version v inside its real-time window and both passes agree; the final state equals the serial replay; the binary is built with -race and every race report with a nutsdb frame is a violation; deadlock watchdog. Non-trivial: >=2 pairs of transactions on the same database overlapped in real time.",
      assumptions=CONC_ASSUMPTIONS,
      technique="randomized concurrent histories (rapid-generated programs and yield plans) under the race detector with an exact strict-serializability oracle")
 
@@ -163,7 +163,7 @@ prop("C18",
      level="exploration", engine="E1+E4", race=True,
      tests=[dict(name="TestC18", quick=800, thorough=4000, race=False),
             dict(name="TestC18Conc", quick=400, thorough=2000)],
-     rule="(a) rapid-generated mixed histories (KV in all three index modes, lists/sets/sorted sets in KeyVal mode, FileIO/MMap x loading mode x sync x segment size 200..8192, reopen and Merge steps) with 1-3 Backup steps at drawn positions: Backup into a new directory must succeed, the copy must open with the same options, its full observation must equal the source's observation taken just before the Backup, the source's observation must not change, and the copy is re-opened and compared again at the end of the history (after the source has written, merged, reopened); (b) concurrent: 2-8 goroutines of version-stamped writers and readers (all index modes) plus 1-2 goroutines calling Backup after a drawn amount of progress; each copy is opened and judged as a reader: it must show exactly the state after one version v (keys, scans, list, set) with v inside the real-time window of the Backup call; -race build. Non-trivial: (a) a backup taken when >=2 segments exist, (b) a Backup call that overlapped a write transaction in real time; inner_enumerations counts the backups opened in (a).",
+     rule="(a) rapid-generated mixed histories (KV in all three index modes, lists/sets/sorted sets in KeyVal mode, FileIO/MMap x loading mode x sync x segment size 200..8192, reopen and Merge steps) with 1-3 Backup steps at drawn positions: Backup into a new directory must succeed, the copy must open with the same options, its full observation must equal the source's observation taken just before the Backup, the source's observation must not change, and the copy is re-opened and compared again at the end of the history (after the source has written, merged, reopened); (b) concurrent: 2-8 goroutines of version-stamped writers and readers (all index modes) plus 1-2 goroutines calling Backup after a drawn amount of progress; each copy is opened and judged as a reader: it must show exactly the state after one version v (keys, scans, list, set) with v inside the real-time window of the Backup call; -race build. 1 in 8 concurrent programs are slow-copy cases: the database first gets 2-5 sealed 4 MiB segments and, for every Backup, a late writer starts a write transaction as soon as it sees the first copied file in the destination (provably after the copy began): its version must not be in the copy. Non-trivial: (a) a backup taken when >=2 segments exist, (b) a Backup call that overlapped a write transaction in real time; inner_enumerations counts the backups opened in (a).",
      assumptions=CONC_ASSUMPTIONS + ["known finding c15-merge-list-duplication: sequential histories that contain list calls run without their Merge steps (counted under excluded)"],
      technique="metamorphic (copy vs source observation) property testing + concurrent histories with a snapshot oracle")
 
@@ -174,8 +174,8 @@ prop("C20",
             dict(name="FuzzAPIProgram", tier="thorough", fuzz=True, thorough=300, minimize="20x")],
      rule="rapid-generated programs over EVERY exported method of DB and Tx (all 53 Tx methods incl. FindTxIDOnDisk/FindOnDisk/FindLeafOnDisk, DB.Update/View/Begin/Merge/Backup/Close): a population phase fills key/value pairs, a list, two sets and a sorted set in the empty-named bucket and in bucket b (all three index modes, segment sizes 200/512/8192 so commits rotate), then 1-10 steps: writable or read-only transactions (managed and manual, commit or rollback) of 1-5 calls whose arguments are drawn from boundary-heavy domains (nil/empty/separator/255-, 256- and 70000-byte keys and buckets, MinInt64..MaxInt64 indexes, counts, offsets and limits, NaN/+-Inf/+-MaxFloat64/-0 scores, nil and populated range options, invalid regular expressions, extreme TTLs and timestamps), 1-3 further calls on the transaction after its Commit/Rollback, Close (then every kind of step on the closed database), reopen, Merge and Backup. Oracle: no call, Begin, Commit, Rollback, Update/View, Merge, Backup, Close or Open panics (so in particular a call that succeeded never makes the later Commit panic). Non-trivial: a program with an extreme argument aimed at a populated bucket, a call on a finished transaction, or a step after Close; inner_enumerations counts the API calls made.",
      assumptions=["an Open that returns an error (structures written in an index mode that does not support them) ends the program without a verdict (counted as stopped-open-error); Options values outside their documented ranges and nil receivers are not generated",
-                  "native fuzzing (FuzzAPIProgram of the design) was not built; the rapid generator is the only driver"],
-     technique="property-based testing (rapid) of API programs with hostile arguments; oracle: absence of panics")
+                  "thorough tier adds a coverage-guided campaign (FuzzAPIProgram: rapid.MakeFuzz over the same generator, 300 s, all cores); a fuzz worker that the Go engine kills for slowness is not a verdict unless its input fails when run alone"],
+     technique="property-based testing (rapid) of API programs with hostile arguments; native Go fuzzing of the same generator; oracle: absence of panics", engine="E1+E5")
 
 prop("C21",
      level="fault_enumeration", shards=6,
@@ -187,7 +187,7 @@ prop("C21",
             dict(name="FuzzRootIdxImage", tier="thorough", fuzz=True, thorough=60, minimize="5s"),
             dict(name="FuzzBucketMetaImage", tier="thorough", fuzz=True, thorough=60, minimize="5s"),
             dict(name="FuzzRecordFlips", tier="thorough", fuzz=True, thorough=120, minimize="20x")],
-     rule="rapid-generated records of the three stored formats - data entries (bucket, key, value of 0-12 bytes over {00,01,a,b,|,7f,80,ff} or 255/256/300 bytes; timestamp, TTL, tx id, file id, offset from edge values up to MaxUint64; all flag/status/structure codes incl. 0xffff), sparse root-index records and bucket metadata - encoded by the library (Entry.Encode, BPTreeRootIdx.Encode, BucketMeta.Encode), stored in a file followed by nothing, zeros, 0xff bytes or a second copy, and read back through DataFile.ReadAt with BOTH RWManagers, ReadBPTreeRootIdxAt and ReadBucketMeta. Oracle: (round-trip) the decoded fields equal the written ones exactly (the all-zero image may read as 'no record'); (corruption) for EVERY single-bit flip of the stored record and EVERY truncation of it (tail zero-filled as a torn write in a pre-sized segment leaves it, and file cut short) the reader returns an error, or 'no record', or a record equal to the written one in every field - anything else is corrupted data served as data. Flips of the top byte of a size field make the reader allocate 16 MiB-2 GiB and are enumerated for 1 case in 60 (drawn; counted under size-field-top-byte-flips-skipped otherwise). Non-trivial: record with a non-empty bucket, key or value; inner_enumerations counts the images read.",
+     rule="rapid-generated records of the three stored formats - data entries (bucket, key, value of 0-12 bytes over {00,01,a,b,|,7f,80,ff} or 255/256/300 bytes; timestamp, TTL, tx id, file id, offset from edge values up to MaxUint64; all flag/status/structure codes incl. 0xffff), sparse root-index records and bucket metadata - encoded by the library (Entry.Encode, BPTreeRootIdx.Encode, BucketMeta.Encode), stored in a file followed by nothing, zeros, 0xff bytes or a second copy, and read back through DataFile.ReadAt with BOTH RWManagers, ReadBPTreeRootIdxAt and ReadBucketMeta. Oracle: (round-trip) the decoded fields equal the written ones exactly (the all-zero image may read as 'no record'); (corruption) for EVERY single-bit flip of the stored record and EVERY truncation of it (tail zero-filled as a torn write in a pre-sized segment leaves it, and file cut short) the reader returns an error, or 'no record', or a record equal to the written one in every field - anything else is corrupted data served as data. Flips of the top byte of a size field make the reader allocate 16 MiB-2 GiB and are enumerated for 1 case in 60 (drawn; counted under size-field-top-byte-flips-skipped otherwise). API-level variant (TestC21API): a generated key/value history is written through transactions in all three index modes and closed; one stored record is damaged (one bit flipped at a drawn position of the written region of a data segment - in sparse mode also of a root-index or bucket-meta file -, or the file cut short / its tail zeroed at a drawn byte); the directory is opened again: Open fails, or every pair any read returns (Get of every key, GetAll, PrefixScan, RangeScan) was written by the history to that bucket under that key. Image fuzzers (quick: seeds + committed corpus; thorough: coverage-guided campaigns): arbitrary bytes as a stored image - the reader returns an error, no record, or a record that re-encodes to exactly the stored bytes; both RWManagers agree. Non-trivial: record with a non-empty bucket, key or value (API variant: the damaged database opened and served data); inner_enumerations counts the images read.",
      assumptions=["a reader panic on an absurd size (makeslice) counts as 'not served' here",
-                  "the API-level variant and the image fuzzers of the design were not built (time); CRC32 collisions under multi-bit corruption are outside the single-bit/truncation fault model"],
-     technique="round-trip property testing (rapid) with exhaustive single-bit-flip and truncation enumeration per generated record")
+                  "CRC32 collisions under multi-bit corruption are outside the single-bit/truncation fault model; the image fuzzers skip inputs whose declared field sizes exceed 1 MiB (the reader would allocate up to 3 x 4 GiB)"],
+     technique="round-trip property testing (rapid) with exhaustive single-bit-flip and truncation enumeration per generated record; API-level corruption histories; native Go fuzzing of the decoders", engine="E1+E5")
